@@ -354,15 +354,23 @@ func (r *Runner) checkSizeLimit(when string, recs map[uint32][]scanRec, ids []ui
 		if logical <= limit {
 			continue
 		}
-		data := 0
-		var first scanRec
+		data, seals := 0, 0
+		var first, seal scanRec
 		for _, s := range recs[id] {
 			if s.typ != datafile.LogRecordBatchFinished {
 				if data == 0 {
 					first = s
 				}
 				data++
+			} else {
+				seals++
+				seal = s
 			}
+		}
+		if data == 0 && seals == 1 && int64(seal.size) > limit {
+			// a limit smaller than a sealing record: that record is then the single record that alone exceeds it
+			r.inc("oversized_files_ok")
+			continue
 		}
 		if data != 1 || int64(first.size) <= limit {
 			r.fail("file-over-limit", "", "%s: %s holds %d bytes (limit %d when written) in %d data records (first record %d bytes): a file may exceed the limit only for a single record that alone exceeds it", when, n, logical, limit, data, first.size)
